@@ -111,7 +111,7 @@ def translator_validation(run, interp, prop):
 
 def main():
     run = Run("C17", level="other")
-    interp = Interp(interpret_prefixes=("rpyc.utils.server",))
+    interp = Interp(interpret_prefixes=("rpyc.utils.server",), loop_bound=2000)
     thorough = run.tier == "thorough"
     run.assumptions = [
         "environment model (props/srv_world.py): a shut-down or fully closed server-side socket is what makes a client observe end-of-stream; "
